@@ -136,10 +136,16 @@ Inductive uop :=
 | UAccAccept (a peer : Z) (want_ep : bool) (h : Z)
 | UAccAccept2 (a dst : Z) (h : Z)
 | UAccClose0 (a : Z)
+| UTcpWriteAll (s : Z) (seed total chunk : Z) (h : Z)          (* a composed write loop, like asio::async_write *)
+| UTcpReadAll (s : Z) (bufsize : Z) (h : Z)                    (* read until an error, digesting everything *)
 | URslvNew (r node : Z)
 | UResolve (r : Z) (n : rname) (port : Z) (h : Z)
 | URslvCancel (r : Z)
 | UPcapOn.
+
+(* state of the two composed operations the harness offers (one per socket) *)
+Record wall := mkWall { wa_rest : list Z; wa_done : Z; wa_chunk : Z; wa_h : Z }.
+Record rall := mkRall { ra_buf : Z; ra_total : Z; ra_a : Z; ra_c : Z; ra_h : Z }.
 
 Record net := mkNet {
   w_sinks : zmap sink; w_next_sink : Z;
@@ -151,11 +157,13 @@ Record net := mkNet {
   w_tcp_reg : list (endpoint * Z); w_udp_reg : list (endpoint * Z); w_next_port : Z;
   w_tcps : zmap tcp; w_udps : zmap udp; w_chans : zmap chan; w_next_chan : Z;
   w_rslv : zmap rslv;
-  w_pcap : option (list cap)
+  w_pcap : option (list cap);
+  w_wall : zmap wall; w_rall : zmap rall
 }.
 #[export] Instance eta_net : Settable _ :=
   settable! mkNet <w_sinks; w_next_sink; w_handlers; w_nodes; w_in; w_out; w_route; w_mtu; w_mtus; w_hosts;
-                   w_tcp_reg; w_udp_reg; w_next_port; w_tcps; w_udps; w_chans; w_next_chan; w_rslv; w_pcap>.
+                   w_tcp_reg; w_udp_reg; w_next_port; w_tcps; w_udps; w_chans; w_next_chan; w_rslv; w_pcap;
+                   w_wall; w_rall>.
 
 Definition set_sink (w : net) (i : Z) (s : sink) : net := w <| w_sinks := mset (w_sinks w) i s |>.
 
